@@ -222,7 +222,8 @@ PROPS["C19"] = {
 PROPS["C20"] = {
     "level_text": "Server-side URL analysis is the inverse of the documented client join: for symbolic path (1..6/10 bytes, any byte but a trailing '/'), symbolic query (0..6/10 bytes) and track 0..9, plus template paths containing trackID= look-alike segments, getPathAndQueryAndTrackID / findMediaByTrackID / getPathAndQuery return exactly path, query and track for the FFmpeg and GStreamer layouts.",
     "level_note": 'Outside: net/url parsing and escaping, Media.URL / findBaseURL on the client, findMediaByURL, credentials stripping in Request.Marshal.',
-    "runs": [R("split", ".", "root", ["ZzC20Split", "ZzC20SplitLookalike"], params={"GOSTUB": 1}, extras=_EXTRAS, quick_params={"PL": 6, "QL": 6}, thorough_params={"PL": 10, "QL": 10})],
+    "runs": [R("split", ".", "root", ["ZzC20Split", "ZzC20SplitLookalike"], params={"GOSTUB": 1}, extras=_EXTRAS, quick_params={"PL": 6, "QL": 6}, thorough_params={"PL": 10, "QL": 10}),
+             R("describe-control", ".", "root", ["ZzC20DescribeControl"], params={"GOSTUB": 1}, extras=_EXTRAS, quick_params={"N": 3}, thorough_params={"N": 5})],
 }
 
 # ---------------------------------------------------------------- C04
